@@ -111,6 +111,17 @@ def weather_history() -> dict:
     return {'opts': opts, 'missions': ms}
 
 
+def weather_history_missing_day() -> dict:
+    """weather-enabled builder: a day whose weather file exists, then twice a day whose file is missing (rejected both
+    times, for the same reason), then the good day again"""
+    h = weather_history()
+    good = h['missions'][0]
+    bad = dict(good, departure='2024-09-02T12:00:00', want='weather')
+    bad2 = dict(good, departure='2024-09-02T18:30:00', want='weather')
+    h['missions'] = [good, bad, dict(bad), bad2, dict(good, departure='2024-09-01T15:00:00'), bad, good]
+    return h
+
+
 # --------------------------------------------------------------------------- running
 @contextlib.contextmanager
 def record_stages(builder, log: list):
@@ -392,7 +403,8 @@ def main(ctx) -> int:
         # weather-enabled builder (one fixed history: inside the domain / outside / unknown airport / inside)
         try:
             eval_history(ctx, weather_history(), 'weather')
-            ctx.count('weather-history')
+            eval_history(ctx, weather_history_missing_day(), 'weather')
+            ctx.count('weather-history', 2)
         except FileNotFoundError:
             ctx.notes.append('test weather data not available: weather history skipped')
         nh = ctx.scale(quick=45, thorough=900)
